@@ -238,8 +238,9 @@ Definition nt_args : list cnode :=
 Definition nt_argv (bypass : bool) : verify_argv := mkargv External None None None bypass false false true None [].
 Example CliVerify_example_bypass_tightness :
   run_verify_tree (nt_argv false) nt_args = VError /\
-  run_verify_tree (nt_argv true) nt_args = VExit0 [WNonTightProgram] [].
-Proof. split; vm_compute; reflexivity. Qed.
+  (* the warning carries the program that is not tight (the specification program `p :- p.` of a.lp) *)
+  exists P, run_verify_tree (nt_argv true) nt_args = VExit0 [WNonTightProgram P] [] /\ List.length P = 1.
+Proof. split; [vm_compute; reflexivity|]. eexists. split; vm_compute; reflexivity. Qed.
 
 (* non-vacuity of CliVerify_C19_strong: the two command lines above that differ in --no-simplify are both
    accepted, write DIFFERENT files, satisfy the clash premise, and the two files are the Display of
